@@ -15,6 +15,9 @@ type BarrierNode struct {
 	node
 	b              *pipeline.BarrierNode
 	barrierStopper map[models.GroupID]func()
+	// periodicEmitters counts the emitter goroutines of all periodic barriers this node
+	// has created, including the ones of deleted groups, which barrierStopper has forgotten.
+	periodicEmitters sync.WaitGroup
 }
 
 // Create a new  BarrierNode, which emits a barrier if data traffic has been idle for the configured amount of time.
@@ -42,6 +45,8 @@ func (n *BarrierNode) stopBarrierEmitter() {
 	for _, stopF := range n.barrierStopper {
 		stopF()
 	}
+	// No emitter may outlive the node: they forward into the child edges.
+	n.periodicEmitters.Wait()
 }
 
 func (n *BarrierNode) NewGroup(group edge.GroupInfo, first edge.PointMeta) (edge.Receiver, error) {
@@ -76,6 +81,7 @@ func (n *BarrierNode) newBarrier(group edge.GroupInfo, first edge.PointMeta) (ed
 			n.b.Period,
 			n.outs,
 			n.b.Delete,
+			&n.periodicEmitters,
 		)
 		return periodicBarrier, periodicBarrier.Stop, nil
 	default:
@@ -246,19 +252,19 @@ type periodicBarrier struct {
 	del    bool
 	lastT  atomic.Value
 	ticker *time.Ticker
-	wg     sync.WaitGroup
+	wg     *sync.WaitGroup
 	outs   []edge.StatsEdge
 	stopC  chan struct{}
 }
 
-func newPeriodicBarrier(name string, group edge.GroupInfo, in edge.Edge, period time.Duration, outs []edge.StatsEdge, del bool) *periodicBarrier {
+func newPeriodicBarrier(name string, group edge.GroupInfo, in edge.Edge, period time.Duration, outs []edge.StatsEdge, del bool, wg *sync.WaitGroup) *periodicBarrier {
 	r := &periodicBarrier{
 		name:   name,
 		group:  group,
 		in:     in,
 		lastT:  atomic.Value{},
 		ticker: time.NewTicker(period),
-		wg:     sync.WaitGroup{},
+		wg:     wg,
 		outs:   outs,
 		stopC:  make(chan struct{}),
 		del:    del,
@@ -276,13 +282,16 @@ func (n *periodicBarrier) Init() {
 	go n.periodicEmitter()
 }
 
+// Stop signals the emitter goroutine to stop and does not wait for it: the goroutine may be
+// blocked collecting a delete message into the node's own input edge, and the caller,
+// the node goroutine (DeleteGroup), is the only consumer of that edge.
+// The node waits for all its emitters when it exits.
 func (n *periodicBarrier) Stop() {
 	select {
 	case <-n.stopC:
 	default:
 		close(n.stopC)
 		n.ticker.Stop()
-		n.wg.Wait()
 	}
 }
 
